@@ -112,7 +112,7 @@ theorem node_keep {vk : String → List String} {v : Visitor σ} (hv : NonEditin
   | zero => intro w c key parent anc path r h; simp [specNode] at h
   | succ d ih =>
     intro w c key parent anc path r h
-    simp only [specNode] at h
+    simp only [specNode, specBody] at h
     have hne := hv w.s ⟨.enter, c, key, parent, path, anc⟩
     rcases hcall : v w.s ⟨.enter, c, key, parent, path, anc⟩ with ⟨a, s1⟩
     rw [hcall] at hne h
@@ -238,7 +238,7 @@ theorem node_done {vk : String → List String} {v : Visitor σ} (hv : AlwaysIdl
   | zero => intro w c key parent anc path r h; simp [specNode] at h
   | succ d ih =>
     intro w c key parent anc path r h
-    simp only [specNode] at h
+    simp only [specNode, specBody] at h
     have hne := hv w.s ⟨.enter, c, key, parent, path, anc⟩
     rcases hcall : v w.s ⟨.enter, c, key, parent, path, anc⟩ with ⟨a, s1⟩
     rw [hcall] at hne h
